@@ -205,13 +205,13 @@ def run_history(n, dim, init, precision, cap, history, seed, mode, cache):
         elif op == "truncate":
             obj.truncate()
             new_v = v
-            trunc_tol = obj.precision * np.sqrt(n - 1)
+            trunc_tol = obj.precision * (n - 1)  # each of the n-1 bonds may discard up to precision (triangle inequality; sqrt(n-1) would assume orthogonal errors)
             if mode == "C10" and obj.orthogonality_center != 0:
                 raise Violation("truncate-centre", "truncate() did not leave the centre at 0")
         elif op == "add":
             res = obj + other
             new_v = v + live[1][1]
-            trunc_tol = obj.precision * np.sqrt(n - 1)
+            trunc_tol = obj.precision * (n - 1)  # each of the n-1 bonds may discard up to precision (triangle inequality; sqrt(n-1) would assume orthogonal errors)
             live.append([res, None, f"step{step}:add"])
             cur = len(live) - 1
             obj = res
@@ -229,7 +229,7 @@ def run_history(n, dim, init, precision, cap, history, seed, mode, cache):
                 expected[id(twin)] = tv
                 res = obj + twin
                 new_v = v + tv
-            trunc_tol = obj.precision * np.sqrt(n - 1)
+            trunc_tol = obj.precision * (n - 1)  # each of the n-1 bonds may discard up to precision (triangle inequality; sqrt(n-1) would assume orthogonal errors)
             live.append([res, None, f"step{step}:{op}"])
             cur = len(live) - 1
             obj = res
@@ -251,7 +251,7 @@ def run_history(n, dim, init, precision, cap, history, seed, mode, cache):
         elif op == "mpo":
             res = H.apply_to(obj)
             new_v = Hd @ v
-            trunc_tol = obj.precision * np.sqrt(n - 1) * max(1.0, np.linalg.norm(Hd, 2))
+            trunc_tol = obj.precision * (n - 1) * max(1.0, np.linalg.norm(Hd, 2))
             live.append([res, None, f"step{step}:mpo"])
             cur = len(live) - 1
             obj = res
@@ -317,7 +317,7 @@ def run_history(n, dim, init, precision, cap, history, seed, mode, cache):
             if not cap_binds and err > trunc_tol + tol_exact * scale:
                 raise Violation(
                     f"truncation-error-{op}",
-                    f"{op}: bond cap {op_cap} not binding (bonds {[f.shape[2] for f in obj.factors[:-1]]}) but the state moved by {err:.3e} > precision*sqrt(N-1) = {trunc_tol:.3e}",
+                    f"{op}: bond cap {op_cap} not binding (bonds {[f.shape[2] for f in obj.factors[:-1]]}) but the state moved by {err:.3e} > (N-1)*precision = {trunc_tol:.3e}",
                 )
         live[cur][1] = got_v  # re-synchronise the model with the implementation after (possibly lossy) ops
         expected[id(obj)] = got_v
